@@ -34,6 +34,9 @@ type Solver struct {
 	LastErr                string
 }
 
+// IncrementalTimeoutMs bounds a query in the persistent solver session.
+var IncrementalTimeoutMs = 3000
+
 func NewSolver(ctx *Ctx, kind string, timeoutMs int) (*Solver, error) {
 	s := &Solver{ctx: ctx, kind: kind, timeout: timeoutMs}
 	if err := s.start(); err != nil {
@@ -71,7 +74,15 @@ func (s *Solver) start() error {
 	if s.kind == "cvc5" {
 		s.write("(set-logic ALL)\n")
 	} else {
-		s.write(fmt.Sprintf("(set-option :timeout %d)\n", s.timeout))
+		// the incremental session gets a short time limit: queries it cannot
+		// answer quickly go to one-shot runs of the other solvers (z3 4.8.12's
+		// incremental core stalls on some comparator/ite networks that
+		// z3 5.x and cvc5 decide in milliseconds)
+		inc := s.timeout
+		if inc > IncrementalTimeoutMs {
+			inc = IncrementalTimeoutMs
+		}
+		s.write(fmt.Sprintf("(set-option :timeout %d)\n", inc))
 	}
 	s.write("(set-option :produce-models true)\n")
 	return nil
@@ -518,10 +529,11 @@ func (s *Solver) Check(asserts []*Term, wantModel []*Term) (Result, []uint64) {
 	s.write("(pop 1)\n")
 	if res == Unknown {
 		// non-incremental fallbacks: same solver one-shot, then the others
-		for _, k := range []string{s.kind, "z3-new", "cvc5"} {
-			if k == "cvc5" && hasFP(asserts) {
-				k = "cvc5"
-			}
+		order := []string{"z3-new", "cvc5", s.kind}
+		if s.kind != "z3" {
+			order = []string{s.kind, "z3-new", "cvc5"}
+		}
+		for _, k := range order {
 			r2, v2 := s.checkFresh(asserts, wantModel, k)
 			if r2 != Unknown {
 				res, vals = r2, v2
